@@ -41,6 +41,11 @@ CLAIMED = {
    technique="symbolic execution of Numba typed IR + z3: QF_BV cell-wise spec for linear; for log merges QF_FPBV facts plus a real-idealised (NRA + uninterpreted pow/log with instantiated algebraic laws) nearest-counter lemma, counterexamples confirmed by a real sweep of all counters",
    text="Linear: every cell == min(a+b, 2^32-1) for all counter pairs, argument untouched, bookkeeping summed, commutative, empty is identity, never below an input, merged estimate >= capped sum of estimates. Log16/log8: exact IEEE facts (argument untouched, bookkeeping, a+b exactly inside the reserved range) and, with floats idealised as reals and symbolic num_reserved/max_count/base, that the re-encoded counter brackets the decoded sum, is the nearer neighbour with ties down, equals the ceiling from max_count on, is never below an input, that empty is the identity and merge is commutative, with every float->int cast and integer addition shown in range.",
    note="The nearest-counter lemma is in exact real arithmetic under the configuration invariant value(ceiling) == max_count; float rounding at exact decision boundaries is outside the claim. An idealised counterexample is reported only after a concrete witness is found on the real kernels (sweep of a row holding all counters against an independent decode-table oracle)."),
+
+ "C18": dict(engine=K, category="model_checking", design="6 C18",
+   technique="symbolic execution of Numba typed IR + z3 (QF_BV for linear/heavy hitters; QF_FPBV for _log_counter; NRA real-idealised with math-mode integers for log merges, _func and _find_base plumbing)",
+   text="From arbitrary states incl. cells at any distance from the ceiling: no linear add/merge lowers an estimate, estimates at 2^32-1 stay, sums saturate; a heavy-hitter cell re-adding or merging its own key ends at min(sum, 2^32-1); _log_counter is monotone, never passes the ceiling and stays at it (symbolic counter/num_reserved/base); merged log counters are never below an input and reach the ceiling from max_count on (real-idealised); _func(b)=0 is exactly 'the ceiling decodes to max_count'; _find_base performs 200 Newton steps on exactly the constructor's parameters (a narrowing cast shows up) and raises ValueError iff the last iterate < 1.000000001.",
+   note="Convergence of the Newton iteration and the exact set of configurations rejected by the constructor are outside the claim (numeric iteration through **); plumbing counterexamples are replayed on the real constructors, which must either raise ValueError or decode the ceiling to max_count."),
 }
 NA = {}
 ALL = sorted(TITLES)
